@@ -127,7 +127,8 @@ func RenderChild(c Child) string {
 	return s + "/>"
 }
 
-// RenderItem renders one peer item for an initiating session me@domain talking to domain.
+// RenderItem renders one peer item for an initiating session me@domain talking to
+// srv.domain (the two addresses differ in their domainpart on purpose).
 func RenderItem(it Item, s2s bool, domain string) []byte {
 	sp := ""
 	if it.Sp {
@@ -144,7 +145,7 @@ func RenderItem(it Item, s2s bool, domain string) []byte {
 		if s2s {
 			xmlns = "jabber:server"
 		}
-		s = `<?xml version='1.0'?>` + sp + `<stream:stream xmlns='` + xmlns + `' xmlns:stream='` + NSStream + `' version='` + version + `' id='s1' from='` + domain + `' to='me@` + domain + `'>`
+		s = `<?xml version='1.0'?>` + sp + `<stream:stream xmlns='` + xmlns + `' xmlns:stream='` + NSStream + `' version='` + version + `' id='s1' from='srv.` + domain + `' to='me@` + domain + `'>`
 	case "features":
 		s = sp + `<stream:features xmlns:stream='` + NSStream + `'>`
 		for _, c := range it.Children {
